@@ -40,7 +40,7 @@ def required_cells(tier):
             'linenos:file-relative', 'wrapper:google', 'wrapper:freeform', 'multi-line-want', 'eval-mode', 'single-mode',
             'digits:1', 'digits:2', 'digits:3', 'digits:4', 'display-leaves-doctest-unchanged', 'corpus:repo', 'want-with-trailing-blanks',
             'linenos:session=True,call=False', 'linenos:session=True,call=None', 'linenos:session=False,call=None',
-            'gutter:prompts=False,wants=True', 'gutter:prompts=True,wants=True', 'gutter:prompts=False,wants=False', 'directed-docstrings'] + (
+            'gutter:prompts=False,wants=True', 'gutter:prompts=True,wants=True', 'gutter:prompts=False,wants=False', 'directed-docstrings', 'docstring-text-collected-before'] + (
                 ['corpus:stdlib'] if tier == 'thorough' else [])
 
 
@@ -145,6 +145,11 @@ def check_case(ctx, index, case_seed, directed=None):
         ctx.violation(mech, msg + '\n--- docstring (given at line %d) ---\n%s' % (L, doc), case, **kw)
 
     try:
+        if index % 2:
+            # the same text has gone through collection before (another callable with a copied docstring, a second
+            # collection of the module): what is displayed for this doctest is its own
+            harness.collect(doc, style=info['style'], lineno=L + 40)
+            ctx.cell('docstring-text-collected-before')
         exs, wl, printed = harness.collect(doc, style=info['style'], lineno=L)
     except Exception as ex:
         bad('collect-raised', 'parse_docstr_examples raised %r' % (ex,))
